@@ -1,18 +1,21 @@
 #!/bin/bash
 # seed_run.sh <Cxx> : evaluate /tmp/mut_<Cxx>_out/m1,m2 (meta.json driven) with tools/try_seed.sh
 P=$1
+PFX=${SEED_PREFIX:-mut}       # mut = first round, mut2 = second round (seed ids get the suffix r2)
+SFX=""; [ "$PFX" = "mut" ] || SFX="r2"
+export SEED_WT=/tmp/${PFX}_$P
 for i in 1 2; do
-  M=/tmp/mut_${P}_out/m$i
+  M=/tmp/${PFX}_${P}_out/m$i
   [ -f $M/meta.json ] || { echo "$P m$i: no meta.json"; continue; }
   PKG=$(python3 -c "import json;print(json.load(open('$M/meta.json'))['pkg_dir'])")
   RX=$(python3 -c "import json;print(json.load(open('$M/meta.json'))['test_regex'])")
   EX=$(python3 -c "import json;print(' '.join(json.load(open('$M/meta.json')).get('extra_test_pkgs',[])))")
   echo "== $P m$i pkg=$PKG rx=$RX"
-  /verif/tools/try_seed.sh $P $M $P-m$i "$PKG" "$RX" $EX
+  /verif/tools/try_seed.sh $P $M $P-m$i$SFX "$PKG" "$RX" $EX
   python3 - <<PY
 import json
-m=json.load(open('/verif/seeded/$P-m$i/meta.json')); a=json.load(open('$M/meta.json'))
+m=json.load(open('/verif/seeded/$P-m$i$SFX/meta.json')); a=json.load(open('$M/meta.json'))
 m['what_it_breaks']=a.get('what',''); m['needs_to_manifest']=a.get('needs','')
-json.dump(m,open('/verif/seeded/$P-m$i/meta.json','w'),indent=1)
+json.dump(m,open('/verif/seeded/$P-m$i$SFX/meta.json','w'),indent=1)
 PY
 done
